@@ -64,3 +64,26 @@ Theorem gen_render_sticky_note_dbml_is_model s : gen_render_sticky_note_dbml s =
 Proof.
   unfold gen_render_sticky_note_dbml, dbml_sticky. rewrite gen_quote_string_is_model. cbn. repeat rewrite <- app_assoc. try reflexivity.
 Qed.
+
+(* ---- the qualified name of a table / an enum, as both renderers spell it ---- *)
+Theorem gen_get_full_name_for_sql_is_model s n : gen_get_full_name_for_sql (mkNamed s n) = full_name_for_sql s n.
+Proof.
+  unfold gen_get_full_name_for_sql, full_name_for_sql, PUBLIC, q2. cbn [nm_schema nm_name].
+  destruct (ostr_eqb s (Some (s2l "public"))); cbn; rewrite <- ?app_assoc; reflexivity.
+Qed.
+Theorem gen_get_full_name_for_dbml_is_model s n : gen_get_full_name_for_dbml (mkNamed s n) = full_name_for_dbml s n.
+Proof.
+  unfold gen_get_full_name_for_dbml, full_name_for_dbml, full_name_for_sql, PUBLIC, q2. cbn [nm_schema nm_name].
+  destruct (ostr_eqb s (Some (s2l "public"))); cbn; rewrite <- ?app_assoc; reflexivity.
+Qed.
+
+(* ---- the PRIMARY KEY clause of a pk index ---- *)
+Theorem gen_render_pk_sql_is_model i keys :
+  with_comment (i_comment i) (s2l "PRIMARY KEY (" ++ keys ++ [41%N]) = gen_render_pk_sql i keys.
+Proof.
+  unfold gen_render_pk_sql, with_comment. destruct (truthy (i_comment i)); reflexivity.
+Qed.
+
+(* ---- the DBML Note { ... } block ---- *)
+Theorem gen_render_note_is_model t : gen_render_note t = dbml_note t.
+Proof. unfold gen_render_note, dbml_note. rewrite gen_quote_string_is_model. cbn. repeat rewrite <- app_assoc. try reflexivity. Qed.
